@@ -338,29 +338,11 @@ def lawOfMassActionRatesK [Sub α] (conc : List α) (keys : List σ) : List (Rea
       | .error e => .error e
       | .ok xs => .ok (x :: xs)
 
-/-- the same with the DEFAULT `variables=None`: the `MassAction` branch evaluates `variables.items()` and dies with an
-    `AttributeError` (the code as it is; the plain branch never touches `variables`) -/
-def lawOfMassActionRatesDefaultVars [Sub α] (conc : List α) (keys : List σ) : List (Reaction σ α × ParamKind) → Except Err (List α)
-  | [] => .ok []
-  | (r, kind) :: rs =>
-    let head : Except Err α := match kind with
-      | .plain => lawRate conc keys r
-      | .massAction => .error .attributeError
-      | .otherRateExpr => .error .valueError
-    match head with
-    | .error e => .error e
-    | .ok x =>
-      match lawOfMassActionRatesDefaultVars conc keys rs with
-      | .error e => .error e
-      | .ok xs => .ok (x :: xs)
-
-/-- `dCdt_list(rsys, rates)` when `rates` is the GENERATOR returned by `law_of_mass_action_rates` (the literal expression
-    `dCdt_list(rsys, law_of_mass_action_rates(c, rsys))`): the first `rates[idx_r]` is a `TypeError`; with no substance or no
-    reaction the loops never subscript it and `[0] * ns` is returned -/
-def dCdtListOfGenerator (keys : List σ) (rs : List (Reaction σ α)) : Except Err (List α) :=
-  match keys, rs with
-  | _ :: _, _ :: _ => .error .typeError
-  | _, _ => .ok (keys.map fun _ => ((0 : Nat) : α))
+/-- the same with the DEFAULT `variables=None`: since the fix "law_of_mass_action_rates works with its default variables=None"
+    the `MassAction` branch reads `(variables or {}).items()`, i.e. it behaves exactly as with `variables={}` -/
+def lawOfMassActionRatesDefaultVars [Sub α] (conc : List α) (keys : List σ) (rs : List (Reaction σ α × ParamKind)) :
+    Except Err (List α) :=
+  lawOfMassActionRatesK conc keys rs
 
 /-- inner loop of `dCdt_list` for one substance (ode.py:107-110): `f[idx_s] += net_stoichs[idx_r, idx_s] * rates[idx_r]`
     for `idx_r in range(rsys.nr)`; `rates` shorter than the reaction list is an `IndexError`, surplus entries are ignored -/
@@ -380,6 +362,14 @@ def dCdtList (keys : List σ) (rs : List (Reaction σ α)) (rates : List α) : E
       match dCdtList t rs rates with
       | .error e => .error e
       | .ok xs => .ok (x :: xs)
+
+/-- `dCdt_list(rsys, rates)` when `rates` is the GENERATOR returned by `law_of_mass_action_rates` (the literal expression
+    `dCdt_list(rsys, law_of_mass_action_rates(c, rsys))`): `rates = list(rates)` first consumes it (an exception of the generator
+    surfaces here), then the ordinary loop runs -/
+def dCdtListOfGenerator (keys : List σ) (rs : List (Reaction σ α)) (rates : Except Err (List α)) : Except Err (List α) :=
+  match rates with
+  | .error e => .error e
+  | .ok xs => dCdtList keys rs xs
 
 end ArrayPath
 
